@@ -43,10 +43,43 @@ fn strip_rules(model: &str) -> String {
     }
 }
 
+/// The proc macro's own early check of struct fields ("struct fields FFI-safe", "std Option of non-pointers never in
+/// struct fields"): whatever other attributes the struct carries, a field that is not FFI-safe stops the expansion.
+fn macro_struct_gate_probe(rep: &mut Report) {
+    let wrap = |attrs: &str, field: &str| format!("#[diplomat::bridge]\nmod ffi {{\n    use diplomat_runtime::DiplomatOption;\n    {attrs}\n    pub struct Rec {{ pub a: u8, pub f: {field} }}\n    #[diplomat::opaque]\n    pub struct Op;\n    impl Op {{ pub fn get(&self) -> u8 {{ 0 }} }}\n}}\n");
+    // (attributes on the struct, field type, must the macro refuse it)
+    let cases: [(&str, &str, bool); 8] = [
+        ("", "Option<u8>", true),
+        ("#[repr(C)]", "Option<u8>", true),
+        ("#[repr(C)]", "Option<u32>", true),
+        ("#[diplomat::out]\n    #[repr(C)]", "Option<u16>", true),
+        ("#[derive(Clone, Copy)]\n    #[repr(C)]", "Option<bool>", true),
+        ("#[diplomat::out]", "Option<i64>", true),
+        ("#[repr(C)]", "DiplomatOption<u8>", false),
+        ("", "DiplomatOption<u8>", false),
+    ];
+    for (attrs, field, must_reject) in cases {
+        let src = wrap(attrs, field);
+        let r = crate::expand::expand_each(&[src.clone()]);
+        rep.oracle_runs += 1;
+        rep.count("probe:macro-struct-gate");
+        let case = format!("(c05 probe macro-struct-gate attrs={:?} field={field})", attrs.replace('\n', " "));
+        match (&r[0], must_reject) {
+            (Err(e), true) if e.contains("non-FFI safe") => {}
+            (Err(e), true) => rep.oracle_fail(&case, "the proc macro refuses a struct with a non-FFI-safe field, but not with its own diagnostic", json!({"rustc": e, "source": src})),
+            (Ok(_), true) => rep.oracle_fail(&case, "a module breaking a documented rule is accepted", json!({"rule": "struct fields FFI-safe (proc-macro side)", "tool": "the #[diplomat::bridge] expansion compiles", "source": src})),
+            (Ok(_), false) => {}
+            (Err(e), false) => rep.oracle_fail(&case, "a module within the documented rules is rejected", json!({"rule": "struct fields FFI-safe (proc-macro side)", "tool": e, "source": src})),
+        }
+    }
+}
+
 pub fn main(args: &[String]) {
     let a = util::parse_args(args);
     let cli_budget = if a.tier == "thorough" { 1500 } else { 150 };
+
     let mut rep = Report::new("C05");
+    macro_struct_gate_probe(&mut rep);
     let thorough = a.tier == "thorough";
     let mut rng = Rng::new(a.seed);
     let n_valid = if a.n > 0 { a.n } else if thorough { 1200 } else { 120 };
